@@ -342,7 +342,7 @@ func c01Template(g *gen.G) (tpl *ref.Item, counts map[string]int, sub map[string
 }
 
 func runC01(c *ctx) {
-	c.Rule = "complete messages from four sources (constructors; templates with variables and ellipses completed by FillVariables/SetWaitBit/SetSessionIDAndSystemBytes; sml.Parse of the printed form; the decoder's own output) are encoded, checked against the reference encoding of the intended message, decoded and compared field by field, re-encoded and compared; all 128x256 stream/function pairs, boundary session ids/system bytes, every format at every boundary length; non-trivial = item has a non-empty payload, distinct by hash of the encoded bytes Also (rounds 4-8): nesting chains with siblings at every depth to 70/140; arrays of 2^20+1 values in eight formats; a receive loop (decode, refill the buffer, decode again, re-read the first message); a second derivation from the same template followed by a second round trip of the first message; first encodings of template-completed messages asked by eight goroutines behind a spin barrier. Also (round 9): before one decode in four a frame that is refused half-way (NaN, 8-bit character, text ending inside an element ..) is decoded first; generated trees hold parts that stand in a relation to one another (equal or adjacent lengths, prefix/suffix/case-variant strings, values equal to a count or index, repeated subtrees)."
+	c.Rule = "complete messages from four sources (constructors; templates with variables and ellipses completed by FillVariables/SetWaitBit/SetSessionIDAndSystemBytes; sml.Parse of the printed form; the decoder's own output) are encoded, checked against the reference encoding of the intended message, decoded and compared field by field, re-encoded and compared; all 128x256 stream/function pairs, boundary session ids/system bytes, every format at every boundary length; non-trivial = item has a non-empty payload, distinct by hash of the encoded bytes Also (rounds 4-8): nesting chains with siblings at every depth to 70/140; arrays of 2^20+1 values in eight formats; a receive loop (decode, refill the buffer, decode again, re-read the first message); a second derivation from the same template followed by a second round trip of the first message; first encodings of template-completed messages asked by eight goroutines behind a spin barrier. Also (round 9): before one decode in four a frame that is refused half-way (NaN, 8-bit character, text ending inside an element ..) is decoded first; generated trees hold parts that stand in a relation to one another (equal or adjacent lengths, prefix/suffix/case-variant strings, values equal to a count or index, repeated subtrees). Also (round 10): every decode runs on the harness's own copy of the frame, which is overwritten with two-byte UTF-8 sequences before the result is read."
 	c.Assume = []string{"reference encoder ties the bytes to the intended message", "item identity is judged through the printed form of the item (the API exposes no other accessor)"}
 
 	// all (stream, function) pairs once each, small random item
